@@ -89,11 +89,13 @@ const (
 	siteStructTag
 	siteSetter
 	siteUnpackTag
+	siteRefOperator // the key as the name of ${key:default}, ${key:+alt} and of a computed reference ${${k}}
+	siteSetterIdx   // the number as idx argument of a setter on a list that has entries already
 	numC20Sites
 )
 
 func (s c20Site) String() string {
-	return [...]string{"single map key", "last segment of a dotted key", "first segment of a dotted key", "middle segment of a dotted key", "struct tag", "name argument of SetString/String/Has/Remove", "struct tag of an Unpack target"}[s]
+	return [...]string{"single map key", "last segment of a dotted key", "first segment of a dotted key", "middle segment of a dotted key", "struct tag", "name argument of SetString/String/Has/Remove", "struct tag of an Unpack target", "name in ${key:d}, ${key:+a} and ${${k}}", "idx argument of a setter on a non-empty list"}[s]
 }
 
 func c20Space(name string, strs []string) *core.Space {
@@ -118,6 +120,9 @@ func c20Space(name string, strs []string) *core.Space {
 			}
 			if (site == siteStructTag || site == siteUnpackTag) && (strings.ContainsAny(s, ",\"`") || s == "") {
 				return core.Result{Skipped: true}
+			}
+			if site == siteRefOperator || site == siteSetterIdx {
+				return c20ExtraSite(site, s, maxIdx, numKeys)
 			}
 			// oracle
 			singleSegment := !dotted
@@ -254,6 +259,92 @@ func c20Space(name string, strs []string) *core.Space {
 			return res
 		},
 	}
+}
+
+// c20ExtraSite: sites whose oracle is not "index or name" of a freshly built config.
+func c20ExtraSite(site c20Site, s string, maxIdx int64, numKeys bool) core.Result {
+	var res core.Result
+	v, perr := strconv.ParseInt(s, 0, 64)
+	pi := core.Guard(func() {
+		opts := []ucfg.Option{ucfg.MaxIdx(maxIdx), ucfg.EnableNumKeys(numKeys)}
+		switch site {
+		case siteRefOperator:
+			// whatever the key is (index or name), a reference spelled with the same text under
+			// the same options finds the value stored under it
+			if s == "" || strings.ContainsAny(s, "${}:. \t\n\"'\\,[]") || strings.HasPrefix(s, "zz") {
+				res.Skipped = true
+				return
+			}
+			o := append([]ucfg.Option{ucfg.VarExp}, opts...)
+			cfg, err := ucfg.NewFrom(M{s: "v", "zzd": "${" + s + ":fb}", "zza": "${" + s + ":+alt}", "zzn": "${${zzk}}", "zzk": s, "zzp": "${" + s + "}"}, o...)
+			if err != nil {
+				res.Skipped = true // (rejected keys are judged by the single-map-key site)
+				return
+			}
+			for _, probe := range [][2]string{{"zzp", "v"}, {"zzd", "v"}, {"zza", "alt"}, {"zzn", "v"}} {
+				got, err := cfg.String(probe[0], -1, o...)
+				if err != nil || got != probe[1] {
+					res = core.Fail("c20", fmt.Sprintf("REFERENCE-BY-KEY %s numkeys=%v %s", probe[0], numKeys, keyClass(s, perr, v, maxIdx)), fmt.Sprintf("{%q: \"v\", %s: %q}: reading %s gives (%q, %v), expected %q", s, probe[0], map[string]string{"zzp": "${" + s + "}", "zzd": "${" + s + ":fb}", "zza": "${" + s + ":+alt}", "zzn": "${${zzk}} with zzk: " + s}[probe[0]], probe[0], got, err, probe[1]))
+					return
+				}
+			}
+			res.Nontrivial = perr == nil
+			res.Outcome = "reference"
+		case siteSetterIdx:
+			if perr != nil || v < 0 || v > 1<<40 {
+				res.Skipped = true
+				return
+			}
+			have := int64(3)
+			if maxIdx+1 < have {
+				have = maxIdx + 1
+			}
+			if have < 0 {
+				have = 0
+			}
+			l := make(L, have)
+			for i := range l {
+				l[i] = "x"
+			}
+			cfg, err := ucfg.NewFrom(M{"a": l, "d": M{"l": l}})
+			if err != nil {
+				panic("harness: " + err.Error())
+			}
+			for _, target := range []string{"a", "d.l"} {
+				o := append([]ucfg.Option{ucfg.PathSep(".")}, opts...)
+				serr := cfg.SetString(target, int(v), "w", o...)
+				n := -1
+				if target == "a" {
+					n, _ = cfg.CountField("a")
+				} else if d, err := cfg.Child("d", -1); err == nil {
+					n, _ = d.CountField("l")
+				}
+				if v <= maxIdx {
+					want := have
+					if v+1 > want {
+						want = v + 1
+					}
+					if serr != nil || int64(n) != want {
+						res = core.Fail("c20", "SETTER-IDX in-range", fmt.Sprintf("SetString(%q, %d) on a list of %d with MaxIdx(%d): err=%v, entries=%d (expected %d)", target, v, have, maxIdx, serr, n, want))
+						return
+					}
+				} else if serr == nil || int64(n) != have {
+					res = core.Fail("c20", "SETTER-IDX above-maxidx", fmt.Sprintf("SetString(%q, %d) on a list of %d with MaxIdx(%d): err=%v, entries=%d (expected an error and %d entries)", target, v, have, maxIdx, serr, n, have))
+					return
+				}
+			}
+			if n := c20MaxList(cfg); int64(n) > maxIdx+1 && int64(n) > have {
+				res = core.Fail("c20", "LIST-EXCEEDS-MAXIDX setter idx", fmt.Sprintf("a list of %d entries with MaxIdx %d", n, maxIdx))
+				return
+			}
+			res.Nontrivial = true
+			res.Outcome = "setter-idx"
+		}
+	})
+	if pi != nil {
+		return apiPanic("c20", pi)
+	}
+	return res
 }
 
 func keyClass(s string, perr error, v, maxIdx int64) string {
